@@ -50,6 +50,9 @@ type view struct {
 	// withdrawn: side-chain transaction hashes withdrawn on this chain (C33)
 	// (1: by an earlier block, 2: by an earlier transaction of the block being assembled)
 	withdrawn map[common.Uint256]int8
+	// pow: an earlier block of this chain reverted consensus to PoW. In that
+	// emergency mode the node admits no ordinary transfers or withdrawals.
+	pow bool
 }
 
 type spentRec struct {
@@ -77,6 +80,7 @@ func (v *view) clone() *view {
 	}
 	n.minted.Set(v.minted)
 	n.subsidy.Set(v.subsidy)
+	n.pow = v.pow
 	return n
 }
 
